@@ -33,6 +33,8 @@ ASSUMPTIONS = [
 ]
 MIN_NONTRIVIAL = 1000
 REQUIRED_COUNTERS = ["pipelines_rendered", "placements_rendered", "spellings_rendered", "n_flag_cases", "markup_idempotence_cases"]
+RULE += "; a third of the pipeline batches and half of the placements rendered under strict_undefined=True (flag names are not names); n inside filter= attributes"
+REQUIRED_COUNTERS += ["pipelines_under_strict_undefined", "placements_under_strict_undefined"]
 
 _st = {}
 MODULE_BLOCK = (
@@ -152,6 +154,10 @@ def run_pipelines(case, res):
         spell = "${%s%s}" % (vname, (" | " + ", ".join(E)) if E else "")
         items.append((E, vname, spell))
     kw = {} if D is None else {"default_filters": list(D)}
+    if case.get("strict"):
+        # every name these templates read is defined: strict_undefined changes nothing (the flag names are not names)
+        kw["strict_undefined"] = True
+        res.count("pipelines_under_strict_undefined", len(items))
     text = build_expr_template(D, P, [it[2] for it in items])
     try:
         t = T(text, **kw)
@@ -170,7 +176,7 @@ def run_pipelines(case, res):
             singles.append((E, vname, spell))
             exp_parts.append(None)
             res.count("not_asserted_type_errors")
-    rc = {"kind": "pipelines", "D": D, "P": P, "items": case["items"]}
+    rc = {"kind": "pipelines", "D": D, "P": P, "items": case["items"], "strict": bool(case.get("strict"))}
     if not singles:
         res.evaluations += len(items)
         res.count("pipelines_rendered", len(items))
@@ -208,16 +214,16 @@ def note(res, part, D, P):
 def judge_single(T, kw, D, P, part, res, rc):
     exp, nf, E, vname, spell = part
     text = build_expr_template(D, P, [spell])
-    what = "default_filters=%r page expression_filter=%r expression %s with %s=%r" % (D, P, spell, vname, VALUES[vname])
+    what = "default_filters=%r page expression_filter=%r%s expression %s with %s=%r" % (D, P, " strict_undefined=True" if kw.get("strict_undefined") else "", spell, vname, VALUES[vname])
     try:
         out = T(text, **kw).render_unicode(cf=cf, **VALUES)
     except Exception as e:
         res.violate("pipeline-raises", "%s raised %s: %s; expected %r" % (what, type(e).__name__, e, exp), witness=what,
-                    replay_case={"kind": "pipelines", "D": D, "P": P, "items": [[E, vname]]})
+                    replay_case={"kind": "pipelines", "D": D, "P": P, "items": [[E, vname]], "strict": rc["strict"]})
         return
     if out != exp:
         res.violate("pipeline-order", "%s rendered %r, expected %r" % (what, out, exp), witness=what,
-                    replay_case={"kind": "pipelines", "D": D, "P": P, "items": [[E, vname]]})
+                    replay_case={"kind": "pipelines", "D": D, "P": P, "items": [[E, vname]], "strict": rc["strict"]})
 
 
 # ------------------------------------------------------------------ placements
@@ -231,6 +237,9 @@ def run_placements(case, res):
         kw["default_filters"] = list(D)
     if BF:
         kw["buffer_filters"] = list(BF)
+    if case.get("strict"):
+        kw["strict_undefined"] = True
+        res.count("placements_under_strict_undefined")
     fattr = ' filter="%s"' % ",".join(F) if F else ""
     callspell = (" | " + ", ".join(callE)) if callE else ""
 
@@ -278,7 +287,7 @@ def run_placements(case, res):
     for pname, (text, exp) in placements.items():
         res.evaluations += 1
         res.count("placements_rendered")
-        what = "placement=%s filter=%r buffer_filters=%r default_filters=%r calling filters=%r" % (pname, F, BF, D, callE)
+        what = "placement=%s filter=%r buffer_filters=%r default_filters=%r calling filters=%r%s" % (pname, F, BF, D, callE, " strict_undefined=True" if case.get("strict") else "")
         try:
             out = T(text, **kw).render_unicode(cf=cf)
         except Exception as e:
@@ -385,6 +394,7 @@ def gen_cases(tier, seed):
     lists = [list(t) for k in range(0, kmax + 1) for t in itertools.product(EFILTERS, repeat=k)]
     r = common.rng_for(seed, "c02")
     nrand = 5000 if tier == "quick" else 50000
+    nth = 0
     for _ in range(nrand):
         lists.append([r.choice(EFILTERS) for _ in range(r.choice([3, 4]))])
     for D in DEFAULTS:
@@ -394,17 +404,21 @@ def gen_cases(tier, seed):
                 for vname in ("s", "i", "p", "z") if len(E) <= 2 else (r.choice(["s", "i", "p", "z"]),):
                     items.append([E, vname])
                     if len(items) >= 60:
-                        yield {"kind": "pipelines", "D": D, "P": P, "items": items}
+                        nth += 1
+                        yield {"kind": "pipelines", "D": D, "P": P, "items": items, "strict": nth % 3 == 0}
                         items = []
             if items:
-                yield {"kind": "pipelines", "D": D, "P": P, "items": items}
-    FL = [[], ["f"], ["f", "g"], ["h"], ["h", "f"], ["trim", "f"], ["g", "x"], ["mk('|')", "f"]]
+                nth += 1
+                yield {"kind": "pipelines", "D": D, "P": P, "items": items, "strict": nth % 3 == 0}
+    # (`n` in a filter= attribute is a flag without effect there: no default filters to switch off)
+    FL = [[], ["f"], ["f", "g"], ["h"], ["h", "f"], ["trim", "f"], ["g", "x"], ["mk('|')", "f"], ["n"], ["n", "f"], ["u", "n", "entity"]]
     BFL = [[], ["g"], ["f", "g"], ["trim"]]
     for F in FL:
         for BF in BFL:
             for D in (None, [], ["f"], ["h"]):
                 for E in ([], ["g"], ["n"], ["n", "f"], ["h"]):
-                    yield {"kind": "placements", "F": F, "BF": BF, "D": D, "E": E}
+                    nth += 1
+                    yield {"kind": "placements", "F": F, "BF": BF, "D": D, "E": E, "strict": nth % 2 == 0}
     flt = [[], ["f"], ["f", "g"], ["n", "h"], ["mk('|')"], ["mk('}', ')')", "f"], ["trim", "mk(a=1)"]]
     for i in range(0, len(SPELLINGS), 4):
         yield {"kind": "scanner", "spellings": SPELLINGS[i : i + 4], "filters": flt}
